@@ -358,12 +358,12 @@ func runC11(e *env) {
 		// bind messages to AST nodes (desc = m<idx>) and placeholder parts to names
 		nodes := map[int]*ast.MsgNode{}
 		for _, n := range c11MsgNodes(reg) {
-			if k, err := strconv.Atoi(strings.TrimPrefix(n.Desc, "m")); err == nil {
+			if k, err := strconv.Atoi(c11Digits(strings.TrimPrefix(n.Desc, "m"))); err == nil {
 				nodes[k] = n
 			}
 		}
 		nameOf := make([]map[string]string, len(msgs))
-		var hasEmpty, hasBad, hasNested, hasLook, hasParens, hasEmptyCase, hasBadName, incoherent, nontrivial bool
+		var hasEmpty, hasBad, hasNested, hasLook, hasParens, hasEmptyCase, hasBadName, hasDescNL, incoherent, nontrivial bool
 		bad := ""
 		for _, m := range msgs {
 			n := nodes[m.Idx]
@@ -388,6 +388,7 @@ func runC11(e *env) {
 			hasBad = hasBad || m.has("badplural")
 			hasNested = hasNested || m.has("nested")
 			hasParens = hasParens || m.has("parens")
+			hasDescNL = hasDescNL || m.has("descnl")
 			hasLook = hasLook || m.lookalike()
 			for _, nm := range no {
 				if !c11NameRe.MatchString(nm) {
@@ -505,6 +506,20 @@ func runC11(e *env) {
 				}
 			}
 			entries = append(entries, pe)
+		}
+		// every entry must carry its id= reference: pomsg.newBundle refuses the whole catalogue otherwise
+		noID := false
+		for _, pe := range entries {
+			noID = noID || pe.id == 0
+		}
+		if noID {
+			key := ""
+			if hasDescNL {
+				key = "desc-newline"
+			}
+			c11Fail(e, hx.Violation{Kind: "oracle", What: "the POT written by xgettext-soy has an entry without an id= reference: pomsg refuses every catalogue made from it", Case: rp, Observed: c11Head(stdout.String(), 600)}, key)
+			os.RemoveAll(dir)
+			continue
 		}
 		want := map[string]int{}
 		for _, m := range msgs {
@@ -774,6 +789,7 @@ func runC11(e *env) {
 	}
 	e.res.Note("go side: %d bundles in %.1fs", len(bundles), time.Since(t0).Seconds())
 	c11PartsCorrespondence(e, partStrings)
+	c11PoCorrespondence(e)
 
 	// ---- node: every unit in its own context, one process per chunk ----
 	t1 := time.Now()
@@ -880,6 +896,15 @@ func runC11(e *env) {
 			}
 		}
 	}
+}
+
+// c11Digits returns the leading decimal digits of s (the index in a generated description "m<idx><more>")
+func c11Digits(s string) string {
+	i := 0
+	for i < len(s) && s[i] >= '0' && s[i] <= '9' {
+		i++
+	}
+	return s[:i]
 }
 
 func c11Head(s string, n int) string {
